@@ -333,6 +333,8 @@ class Lexer():
         self._in_string = None
         # * the starting delimiter, either " or '
         self._in_string_delim = None
+        # * whether a "\z" escape is skipping whitespace
+        self._in_string_skip_space = False
 
         # If inside a multiline comment (else None):
         # * the lines of comment, as an array of str (possibly empty)
@@ -375,6 +377,13 @@ class Lexer():
             while i < len(s):
                 c = s[i:i+1]
 
+                if self._in_string_skip_space:
+                    # (Still skipping the whitespace that follows "\z".)
+                    if c.isspace():
+                        i += 1
+                        continue
+                    self._in_string_skip_space = False
+
                 if c == self._in_string_delim:
                     # End string literal.
                     self._tokens.append(
@@ -399,6 +408,11 @@ class Lexer():
                     elif hex_m:
                         c = bytes([int(hex_m.group(1), 16)])
                         i += 3
+                    elif s[i+1:i+2] == b'z':
+                        # "\z" skips the whitespace that follows it.
+                        c = b''
+                        i += 1
+                        self._in_string_skip_space = True
                     elif s[i+1:i+3] == b'\r\n':
                         # Escaped Windows line break.
                         c = b'\n'
